@@ -263,14 +263,21 @@ def run(case):
         fa, fb = ta.getRoot(), tb.getRoot()
     before = (H.snapshot(fa), H.snapshot(fb), [_ranks(t) for t in tensors])
     side = {}
-    try:
+    def rows_of(z):
         if op == "and":
-            rows = [[c, _ref(fa, pa, dflt, leaf), _ref(fb, pb, dfltB, leaf)] for c, (pa, pb) in fa & fb]
-        elif op == "sub":
-            rows = [[c, _ref(fa, pa, dflt, leaf)] for c, pa in fa - fb]
-        else:
-            z = (fa | fb) if op == "or" else (fa ^ fb)
-            rows = [[c, m, _ref(fa, pa, dflt, leaf), _ref(fb, pb, dfltB, leaf)] for c, (m, pa, pb) in z]
+            return [[c, _ref(fa, pa, dflt, leaf), _ref(fb, pb, dfltB, leaf)] for c, (pa, pb) in z]
+        if op == "sub":
+            return [[c, _ref(fa, pa, dflt, leaf)] for c, pa in z]
+        return [[c, m, _ref(fa, pa, dflt, leaf), _ref(fb, pb, dfltB, leaf)] for c, (m, pa, pb) in z]
+
+    def make():
+        return {"and": lambda: fa & fb, "sub": lambda: fa - fb, "or": lambda: fa | fb, "xor": lambda: fa ^ fb}[op]()
+    try:
+        z = make()
+        rows = rows_of(z)
+        # the same lazy result walked again, and the operator applied again, deliver the same rows
+        if rows_of(z) != rows or rows_of(make()) != rows:
+            side["second_iteration_gives_the_same_rows"] = False
         case["impl"] = rows
         if _has_foreign(rows):
             side["delivered_payloads_are_stored_or_fresh_default"] = False
